@@ -28,55 +28,68 @@ Theorem C17_freeze_resolves_eagerly : forall (look : name -> option val) (B : li
 Proof. exact freeze_resolves_eagerly. Qed.
 Print Assumptions C17_freeze_resolves_eagerly.
 
-(* freeze preserves meaning.  `cur0` is the frame in which the expression was frozen and is evaluated,
-   `n0` the number of frames of the store at the start (so cur0 < n0); `srel` relates the store of
-   the original run and the store of the frozen run (same frames and variables, related values,
-   same printed output), `agree` says that the variables freeze resolved (`rn B e`) still hold
-   (values related to) what freeze copied, and the evaluator runs under `prot0 n0 (rn B e)`: it
-   stops with the signal STrap as soon as a variable named like a resolved one is about to be
-   declared or assigned in a pre-existing frame - the hypothesis "r <> Sig STrap" is the
-   property's "e's free variables are not reassigned between the freeze and the use".
-   Fragment: `declared_before_captured B e` (Lang/FreezeDbc.v) - no name that freeze resolves inside
-   a lambda is declared by a scope enclosing that lambda; the first iteratee of a for loop
-   declares nothing; values frozen into the source contain no closures.
+(* freeze preserves meaning, and binds eagerly.  `cur0` is the frame in which the expression was frozen
+   and is evaluated, `n0` the number of frames of the store at the start (so cur0 < n0); `srel` relates
+   the store `st` of the original run and the store `st'` of the frozen run (same frames and
+   variables, related values, same printed output) EXCEPT at the variables named in `mutl`, whose
+   cells may hold anything in `st'`: these are the outer variables reassigned between the freeze and
+   the use (C17_reassignment_keeps_relation below: `x = w` with x in mutl, done on the frozen side
+   only, keeps `srel`).  `agree` says that in `st` the variables freeze resolved (`rn B e`) still hold
+   (values related to) what freeze copied, and the original run is under `prot0 n0 (rn B e)`: it stops
+   with the signal STrap as soon as a variable named like a resolved one is about to be declared or
+   assigned in a pre-existing frame - the hypothesis "r <> Sig STrap" is the property's "e's free
+   variables are not reassigned between the freeze and the use".
+   Fragment: `declared_before_captured mutl B e` (Lang/FreezeDbc.v) - no name that freeze resolves
+   inside a lambda is declared by a scope enclosing that lambda; the first iteratee of a for loop
+   declares nothing; values frozen into the source contain no closures; an identifier that freeze
+   keeps (bound by the expression) is not named in mutl.
    Conclusion: the protected run is the run of the plain evaluator (`noprot`), and the plain
-   evaluator on the frozen expression ends (same fuel) with a related store, the same printed
-   output and a related result (`rres`: value / thrown value related by `vrel`, or both left the
-   vocabulary). *)
-Theorem C17_freeze_preserves : forall (n0 cur0 : nat) (look : name -> option val), cur0 < n0 ->
+   evaluator on the frozen expression, in the store with the reassigned variables, ends (same fuel)
+   with a related store, the same printed output and a related result (`rres`: value / thrown value
+   related by `vrel`, or both left the vocabulary).  With mutl = [] this is plain preservation; with
+   mutl <> [] it says the frozen code does not depend on the current values of those variables. *)
+Theorem C17_freeze_preserves : forall (n0 cur0 : nat) (look : name -> option val) (mutl : list name), cur0 < n0 ->
   forall (B : list name) (e e' : expr) (B' : list name) (st st' : state) (fuel : nat) (st1 : state) (r : res val),
     freeze look B e = Ok (e', B') ->
-    declared_before_captured B e ->
-    srel n0 cur0 look (rn B e) st st' ->
-    agree n0 cur0 look (rn B e) (frames st) ->
+    declared_before_captured mutl B e ->
+    srel n0 cur0 look (rn B e) mutl st st' ->
+    agree n0 cur0 look (rn B e) mutl (frames st) ->
     eval (prot0 n0 (rn B e)) fuel st cur0 e = (st1, r) ->
     r <> OutOfFuel -> r <> Sig STrap ->
     eval noprot fuel st cur0 e = (st1, r) /\
     exists st1' r',
       eval noprot fuel st' cur0 e' = (st1', r') /\
-      srel n0 cur0 look (rn B e) st1 st1' /\
+      srel n0 cur0 look (rn B e) mutl st1 st1' /\
       out st1 = out st1' /\
-      rres n0 cur0 look (rn B e) (vrel n0 cur0 look (rn B e)) (frames st1) r r'.
+      rres n0 cur0 look (rn B e) mutl (vrel n0 cur0 look (rn B e) mutl) (frames st1) r r'.
 Proof. exact freeze_preserves_plain. Qed.
 Print Assumptions C17_freeze_preserves.
+
+(* reassigning, on the frozen side only, a variable named in mutl keeps the stores related *)
+Theorem C17_reassignment_keeps_relation : forall (n0 cur0 : nat) (look : name -> option val) (resl mutl : list name)
+    (st st' : state) (f : nat) (x : name) (w : val) (st'' : state),
+  srel n0 cur0 look resl mutl st st' -> mem x mutl = true ->
+  assign noprot st' f x w = UOk st'' -> srel n0 cur0 look resl mutl st st''.
+Proof. exact srel_reassign. Qed.
+Print Assumptions C17_reassignment_keeps_relation.
 
 (* for every argument tuple: related function values (a lambda and its frozen form, by the theorem
    above) applied later, in related stores, to related arguments: `post` = either the original call
    ran out of fuel / hit a protected variable, or both calls end with related stores, the same
    output and related results *)
-Theorem C17_frozen_call_preserves : forall (n0 cur0 : nat) (look : name -> option val), cur0 < n0 ->
+Theorem C17_frozen_call_preserves : forall (n0 cur0 : nat) (look : name -> option val) (mutl : list name), cur0 < n0 ->
   forall (resl : list name) (fuel : nat) (st st' : state) (cur : nat) (fv fv' : val) (args args' : list val),
-    srel n0 cur0 look resl st st' -> agree n0 cur0 look resl (frames st) ->
-    vrel n0 cur0 look resl (frames st) fv fv' -> vrels n0 cur0 look resl (frames st) args args' ->
-    post n0 cur0 look resl (vrel n0 cur0 look resl) st cur []
+    srel n0 cur0 look resl mutl st st' -> agree n0 cur0 look resl mutl (frames st) ->
+    vrel n0 cur0 look resl mutl (frames st) fv fv' -> vrels n0 cur0 look resl mutl (frames st) args args' ->
+    post n0 cur0 look resl mutl (vrel n0 cur0 look resl mutl) st cur []
          (apply (prot0 n0 resl) fuel st fv args) (apply (prot0 n0 resl) fuel st' fv' args').
 Proof. exact frozen_call_preserves. Qed.
 Print Assumptions C17_frozen_call_preserves.
 
 (* the relation has slack only in closure bodies: related data are equal *)
-Theorem C17_related_data_equal : forall (n0 cur0 : nat) (look : name -> option val) (resl : list name)
+Theorem C17_related_data_equal : forall (n0 cur0 : nat) (look : name -> option val) (mutl resl : list name)
     (fs : list frame) (v v' : val),
-  vrel n0 cur0 look resl fs v v' -> simple v = true -> v = v'.
+  vrel n0 cur0 look resl mutl fs v v' -> simple v = true -> v = v'.
 Proof. exact vrel_data_eq. Qed.
 Print Assumptions C17_related_data_equal.
 
@@ -86,13 +99,26 @@ Print Assumptions C17_related_data_equal.
 Theorem C17_freeze_preserves_refuted :
   exists (st : state) (e e' : expr) (B' : list name),
     freeze (look_in (frames st) 0) [] e = Ok (e', B') /\
-    ~ declared_before_captured [] e /\
-    srel 1 0 (look_in (frames st) 0) (rn [] e) st st /\
-    agree 1 0 (look_in (frames st) 0) (rn [] e) (frames st) /\
+    ~ declared_before_captured [] [] e /\
+    srel 1 0 (look_in (frames st) 0) (rn [] e) [] st st /\
+    agree 1 0 (look_in (frames st) 0) (rn [] e) [] (frames st) /\
     eval (prot0 1 (rn [] e)) 12 st 0 e = (fst (eval (prot0 1 (rn [] e)) 12 st 0 e), Val (VInt 8)) /\
     snd (eval (prot0 1 (rn [] e)) 12 st 0 e') = Val (VInt 3).
 Proof. exact freeze_preserves_refuted. Qed.
 Print Assumptions C17_freeze_preserves_refuted.
+
+(* ... and the last side condition of the fragment is needed (known finding
+   freeze-binds-before-declaration): (\ -> (a := a + 1; a))() freezes, satisfies the fragment for
+   mutl = [] but not for mutl = ["a"], and its frozen form gives 4 in a store with a = 3 and 11
+   after `a = 10`: the frozen code reads the outer variable when it runs *)
+Theorem C17_binds_eagerly_refuted : exists e' B',
+  freeze (look_in (frames f21_state) 0) [] k2_prog = Ok (e', B') /\
+  declared_before_captured [] [] k2_prog /\
+  ~ declared_before_captured ["a"] [] k2_prog /\
+  snd (eval noprot 12 f21_state 0 e') = Val (VInt 4) /\
+  snd (eval noprot 12 f21_state_reassigned 0 e') = Val (VInt 11).
+Proof. exact k2_late_binding. Qed.
+Print Assumptions C17_binds_eagerly_refuted.
 
 (* non-vacuity: freeze computes, resolves, folds, refuses *)
 Example C17_nonvacuous :
@@ -107,15 +133,17 @@ Proof.
   - apply (proj1 (C17_freeze_resolves_eagerly glook [] (ELam ["x"] (bin "+" (EVar "x") (EInt 1))) _ _ eq_refl)).
 Qed.
 
-(* non-vacuity of the preservation theorem: its hypotheses hold for
-   (\x -> (t := x + a * 2; k := \p -> p - t; k(20) + len([1, -4])))(5) in a store with a = 3,
-   freeze changes the expression, and both forms evaluate to 11 *)
+(* non-vacuity of the preservation theorem: its hypotheses hold, with mutl = ["a"], for
+   (\x -> (t := x + a * 2; k := \p -> p - t; k(20) + len([1, -4])))(5), st = a store with a = 3 and
+   st' = that store after `a = 10`; freeze changes the expression; the original evaluates to 11 in
+   st, the frozen form to 11 in st' - where the original itself would give -3 *)
 Example C17_preserves_nonvacuous :
-  (declared_before_captured [] ex_prog /\
-   srel 1 0 (look_in (frames f21_state) 0) (rn [] ex_prog) f21_state f21_state /\
-   agree 1 0 (look_in (frames f21_state) 0) (rn [] ex_prog) (frames f21_state)) /\
+  (declared_before_captured ["a"] [] ex_prog /\
+   srel 1 0 (look_in (frames f21_state) 0) (rn [] ex_prog) ["a"] f21_state f21_state_reassigned /\
+   agree 1 0 (look_in (frames f21_state) 0) (rn [] ex_prog) ["a"] (frames f21_state)) /\
   (exists e' B',
      freeze (look_in (frames f21_state) 0) [] ex_prog = Ok (e', B') /\ e' <> ex_prog /\
      snd (eval (prot0 1 (rn [] ex_prog)) 12 f21_state 0 ex_prog) = Val (VInt 11) /\
-     snd (eval (prot0 1 (rn [] ex_prog)) 12 f21_state 0 e') = Val (VInt 11)).
+     snd (eval noprot 12 f21_state_reassigned 0 e') = Val (VInt 11) /\
+     snd (eval noprot 12 f21_state_reassigned 0 ex_prog) = Val (VInt (-3))).
 Proof. split; [exact ex_prog_hyps | exact ex_prog_freezes]. Qed.
